@@ -85,7 +85,10 @@ PROPS: Dict[str, Dict[str, Any]] = {
             "quick_n": 10000, "thorough_n": 300000, "fields": ["out", "trace"]},
     "C14": {"theorems": ["C14_root", "C14_list_later_stage", "scalarStep_prov", "seqStep_prov", "ntupleStep_prov",
                          "mapStep_prov", "recordStep_prov", "unionStep_prov", "maybeStep_prov", "ItemsRun.sound",
-                         "recLoop_to_run", "C05_union_invalid_inv"], "stream": "core", "opts": {"salt": "c14", "async_rate": 0.1},
+                         "recLoop_to_run", "C05_union_invalid_inv"],
+            "modules": ["KodaModel.Properties.C14", "KodaModel.Properties.C03", "KodaModel.Properties.C04",
+                        "KodaModel.Properties.C05"],
+            "stream": "core", "opts": {"salt": "c14", "async_rate": 0.1},
             "quick_n": 10000, "thorough_n": 300000, "fields": ["out"]},
     "C17": {"theorems": ["C17_tree_partial", "C17_scalar_tree", "C17_union_fixed_partial", "C17_optional_fixed",
                          "C17_ntuple_fixed", "D25_witness", "C17_scalar_fixed", "GateFix_none", "GateFix_default",
@@ -118,6 +121,7 @@ def _run_cache(pid: str, tier: str, seed: int, spec: dict, scale: float = 1.0, s
 
 PROPS["C20"] = {"theorems": ["Store.get_ok", "Cache.step_ok", "C20_transparent", "C20_transparent_empty", "C20_runs",
                              "C20_second_call_hits", "C20_run_count", "C06_agree"],
+                "modules": ["KodaModel.Properties.C20", "KodaModel.Properties.C06"],
                 "run": _run_cache, "quick_n": 1500, "thorough_n": 20000,
                 "rule": "histories of 0..12 (quick) / 0..200 (thorough) sync and async calls through a dict-backed "
                         "CacheValidatorBase subclass, over a pool of 1-7 inputs with repeats, identity- and typed-equality-"
@@ -133,7 +137,21 @@ def _run_pred(pid: str, tier: str, seed: int, spec: dict, scale: float = 1.0, sa
 PROPS["C15"] = {"theorems": ["C15_min_int", "C15_max_int", "C15_multipleOf_int", "C15_min_date", "C15_lengths",
                              "C15_item_counts", "C15_key_counts", "isPrefix_iff", "C15_startsWith", "C15_endsWith",
                              "stripWith_nil_iff", "C15_notBlank", "dropWhile_idem", "C15_upper_idem", "C15_lower_idem",
-                             "C15_processors", "uniqueLoop_spec", "C15_uniqueItems"],
+                             "C15_processors", "uniqueLoop_spec", "C15_uniqueItems",
+                             "src_Min", "src_Max", "src_MultipleOf", "src_EqualTo", "src_Choices", "src_MinLength",
+                             "src_MaxLength", "src_ExactLength", "src_MinItems", "src_MaxItems", "src_ExactItemCount",
+                             "src_MinKeys", "src_MaxKeys", "src_StartsWith", "src_EndsWith", "src_RegexPredicate",
+                             "src_EmailPredicate", "src_email_pattern", "src_NotBlank", "src_Strip", "src_UpperCase",
+                             "src_LowerCase", "src_UniqueItems_pinned", "src_classes"],
+                "modules": ["KodaModel.Properties.C15", "KodaModel.Properties.C15Src"],
+                "level_note": "the model of every predicate / processor is tied to the source twice: (1) TRANSLATOR - "
+                              "harness/pysrc.py rewrites Generated/PredSrc.lean from the AST of every Predicate / Processor "
+                              "subclass in /repo on every run, and the src_* theorems prove that evaluating each translated "
+                              "__call__ body is the model's PredK.call / ProcK.call for all parameters and arguments "
+                              "(UniqueItems, a loop with try/except, is outside the translated subset: its body is pinned "
+                              "and tied by the correspondence only; src_classes pins the class / field inventory); "
+                              "(2) the correspondence stream on the exhaustive bounded plane.  The C15_* theorems state the "
+                              "documented relations about the model's definitions",
                 "run": _run_pred,
                 "rule": "the bounded (predicate/processor, parameter, argument) plane of the property's quantifier is "
                         "enumerated exhaustively (every point is a distinct non-trivial case: a real __call__ compared with "
